@@ -1,6 +1,6 @@
 CONSTANT Instance = "vararith"
 CONSTANT Disabled = {}
-CONSTANT Mutant = "path_len_not_tied"
+CONSTANT Mutant = "none"
 INIT Init
 NEXT Next
 INVARIANT VarOK
